@@ -217,6 +217,13 @@ func scenC19K(w *vsim.World, spec *vsim.Spec) {
 	}
 	var secrets []string // every unsalted secret the workload creates
 	var wire []string
+	// two clients at once, remote Keep answering 503 now and then, the proxy's Keep clients retrying
+	concurrent := w.Choose("concurrent-clients", 3) != 0
+	okCreds := map[string][]string{} // remote cluster host -> reference credentials of the planned requests
+	retries := 0
+	if concurrent {
+		retries = 1 + w.Choose("proxy-retries", 2)
+	}
 	net := vsim.NewNet(w, func(r *vsim.NetRequest) *vsim.NetReply {
 		all := r.Method + " " + r.Host + r.Path + "?" + r.Query + "\n"
 		for k, vs := range r.Header {
@@ -229,9 +236,26 @@ func scenC19K(w *vsim.World, spec *vsim.Spec) {
 				w.ViolationSig("c19k/unsalted-secret-on-the-wire", "keepstore-remote-proxy", "keepstore forwarded a request to %s that contains the caller's unsalted secret: %q", r.Host, all)
 			}
 		}
+		if concurrent {
+			// with interleaved requests a forwarded message is not attributed to one request: its credential
+			// must be the reference salt of SOME token the workload presents for that remote
+			ok := false
+			for _, c := range okCreds[strings.SplitN(strings.TrimPrefix(r.Host, "keep."), ":", 2)[0]] {
+				if strings.Contains(all, "Authorization: OAuth2 "+c+"\n") {
+					ok = true
+				}
+			}
+			if !ok {
+				w.ViolationSig("c19k/forwarded-credential-differs-from-reference", "keepstore-remote-proxy", "a request forwarded to %s carries a credential that is the reference salt of no token presented for that cluster: %q", r.Host, all)
+			}
+		}
 		rep := &vsim.NetReply{Status: 200, Body: block, Latency: time.Duration(1+w.Choose("lat", 20)) * time.Millisecond}
 		if !strings.HasPrefix(r.Path, "/"+hash) {
 			rep.Status, rep.Body = 404, []byte("no\n")
+		}
+		if concurrent && w.Chance("remote-keep-503", 300) {
+			rep.Status, rep.Body = 503, []byte("busy\n")
+			w.Fault("remote-keep-503")
 		}
 		return rep
 	})
@@ -239,7 +263,7 @@ func scenC19K(w *vsim.World, spec *vsim.Spec) {
 	rtr := node.h.(*router)
 	rtr.remoteProxy.clients = map[string]*keepclient.KeepClient{}
 	for _, r := range remotes {
-		kc := &keepclient.KeepClient{Arvados: &arvadosclient.ArvadosClient{ApiServer: r + ".example", ApiToken: "xxx"}, Want_replicas: 1, Retries: 0, HTTPClient: net}
+		kc := &keepclient.KeepClient{Arvados: &arvadosclient.ArvadosClient{ApiServer: r + ".example", ApiToken: "xxx"}, Want_replicas: 1, Retries: retries, HTTPClient: net}
 		lj, _ := json.Marshal(map[string]interface{}{"items": []map[string]interface{}{{"uuid": r + "-bi6l4-000000000000000", "service_host": "keep." + r + ".example", "service_port": 443, "service_ssl_flag": true, "service_type": "proxy"}}})
 		if err := kc.LoadKeepServicesFromJSON(string(lj)); err != nil {
 			w.Infra("%v", err)
@@ -288,10 +312,47 @@ func scenC19K(w *vsim.World, spec *vsim.Spec) {
 			r.token, r.kind = "v2/"+uuid+"/"+s+"/extra/segments", "v2-extra-segments"
 		case 6:
 			r.token, r.kind = mk(45, false), "legacy"
+			secrets = append(secrets, r.token) // a legacy token IS its secret
 		default:
 			r.token, r.kind = "opaque-"+mk(10, false), "opaque"
 		}
 		plan = append(plan, r)
+		if want, refuse := c19kRefSalt(r.token, r.remote); refuse == "" {
+			okCreds[r.remote+".example"] = append(okCreds[r.remote+".example"], want)
+		}
+	}
+	if concurrent {
+		// the plan is split between two clients; only the global oracles (wire monitor, reference set) apply
+		done2 := 0
+		for c := 0; c < 2; c++ {
+			c := c
+			w.Spawn(fmt.Sprintf("client%d", c+1), func() {
+				defer func() { done2++ }()
+				for i, r := range plan {
+					if i%2 != c || w.Failed() {
+						continue
+					}
+					vsim.Yield("op", "client")
+					loc := fmt.Sprintf("%s+%d+R%s-%040x@5f5e1000", hash, len(block), r.remote, 7)
+					resp := node.do("GET", "/"+loc, r.token, nil)
+					w.Logf("client%d request %d kind=%s -> %d", c+1, i, r.kind, resp.code)
+					w.Probe("token-" + r.kind)
+					w.Probe("concurrent-proxy-request")
+				}
+			})
+		}
+		w.Run(nil)
+		if w.Failed() || w.Truncated() {
+			return
+		}
+		if done2 != 2 {
+			w.Violation("c19k/client-stuck", "%s", strings.Join(w.Blocked(), "; "))
+			return
+		}
+		node.kill()
+		w.Quiesce()
+		w.SetEndState(fmt.Sprintf("%d concurrent requests", len(plan)))
+		return
 	}
 	done := false
 	w.Spawn("client", func() {
